@@ -691,11 +691,10 @@ func c06Content(c *Ctx, rf string) {
 	c.Check(ok0, rf, "internal/signinit.Init record names the key", p.Pos(nw.Pos()), "audit.New(kconf.Name(), …) with kconf from InitKey", "the audit record's key name is not the name of the key configuration that InitKey resolved")
 	// arg1: mod.Name
 	_, f1, base1 := p.fieldLoad(nw.Call.Args[1])
-	modPar := param("mod")
-	c.Check(f1 == "Name" && modPar != nil && base1 == modPar, rf, "internal/signinit.Init record names the signature type", p.Pos(nw.Pos()), "audit.New(…, mod.Name, …)", "the audit record's signature type is not the signer module's name")
+	_ = param
+	c.Check(f1 == "Name" && inputOfType(init, base1, "signers.Signer"), rf, "internal/signinit.Init record names the signature type", p.Pos(nw.Pos()), "audit.New(…, mod.Name, …)", "the audit record's signature type is not the signer module's name")
 	// arg2: hash
-	hashPar := param("hash")
-	c.Check(hashPar != nil && nw.Call.Args[2] == hashPar, rf, "internal/signinit.Init record names the digest", p.Pos(nw.Pos()), "audit.New(…, hash)", "the audit record's digest is not the requested digest")
+	c.Check(inputOfType(init, nw.Call.Args[2], "crypto.Hash"), rf, "internal/signinit.Init record names the digest", p.Pos(nw.Pos()), "audit.New(…, hash)", "the audit record's digest is not the requested digest")
 	// certificate recorded = InitKey's
 	for _, m := range []struct{ callee, field, label string }{
 		{"(*lib/audit.Info).SetX509Cert", "Leaf", "X.509 certificate"},
@@ -810,7 +809,7 @@ func c06Content(c *Ctx, rf string) {
 			if f == "Audit" && st.Val == nw {
 				okAudit = true
 			}
-			if f == "Hash" && st.Val == hashPar {
+			if f == "Hash" && inputOfType(init, st.Val, "crypto.Hash") {
 				okHash = true
 			}
 		}
